@@ -1559,8 +1559,10 @@ Qed.
 Lemma Inv_init : forall a, Inv a init_sst.
 Proof.
   intros a. unfold Inv, quiet, init_sst, oids, is_closed. cbn.
-  repeat split; try constructor; try tauto; try contradiction.
-  - intros i Hi. rewrite orb_false_r in Hi. apply Nat.eqb_eq in Hi. lia.
+  split; [repeat split; intros; contradiction|].
+  split; [constructor|]. split; [intros; contradiction|]. split; [intros; contradiction|].
+  split; [intros; contradiction|].
+  intros i H. rewrite orb_false_r in H. apply Nat.eqb_eq in H. lia.
 Qed.
 
 Lemma forallb_seteq : forall (f : nat -> bool) l l',
